@@ -8,3 +8,6 @@ import (
 
 // UnpatchAll removes every patch goom knows about.
 func UnpatchAll() { patch.UnpatchAll() }
+
+// JumpLen is the number of bytes goom overwrites at a mocked function's entry.
+func JumpLen() int { return patch.VerifBaseJumpLen() }
